@@ -29,7 +29,8 @@ CONSTANTS
   Fronts,      \* subset of {"h1","h2"}
   Backs,       \* subset of {"h1","h2"}
   NReq,        \* 1 or 2
-  Framings,    \* subset of {"cl","chunked","close"}  ("chunked" on an h2c backend = no content-length)
+  Framings,    \* subset of {"cl","chunked","close","clclose"}  ("chunked" on an h2c backend = no content-length;
+               \* "clclose" = Content-Length AND Connection: close: framed, and the backend closes behind it)
   Siblings,    \* what the second request may be: subset of SiblingKinds
   Faults,      \* subset of FaultPoints (as <<kind, at>>)
   Timings,     \* subset of {"bf","ff"}
@@ -46,7 +47,19 @@ Reqs == 1..NReq
 Budget == NReq * 6 + 1
 
 SiblingKinds == {"b", "bdrip", "a", "noroute", "deny", "redirect", "nobackend", "iplimit", "wrongcert"}
-FaultKinds == {"none", "refuse", "close", "reset", "garbage", "stall", "connstall", "rststream"}
+FaultKinds == {"none", "refuse", "close", "reset", "garbage", "stall", "connstall", "rststream", "goaway"}
+\* Further dimensions of a request's script (hole C02-12/22, cross findings 7 and 8):
+\*   interim  none | sep | same   a 103 Early Hints before the final response, in a segment of its own or in the
+\*                                same segment as the head of the final response
+\*   lsid     na | below | equal | above   fault "goaway" = graceful GOAWAY(NO_ERROR) of an h2c backend at a point of
+\*                                the stream's life; last_stream_id below the stream (it will NOT be processed) or
+\*                                equal / above (it WILL be: RFC 9113 6.8)
+\*   pace     fast | drip | split  split: the fault arrives in a read of its own, after sozu has handled the bytes
+\*                                before it (fast: possibly in the same read)
+\*   gap      none | long          mode "newconn" (every request on a frontend connection of its own): the client
+\*                                waits GapTicks (longer than any back-off) before it sends the request
+GapTicks == 4
+BackoffTicks == 2   \* retry.rs: 1 s after a failed connect
 Ats == {"none", "accept", "prehdr", "midhdr", "posthdr", "midbody", "between"}
 
 \* progress of a response: 0 nothing, 1 part of the head, 2 whole head, 3 part of the body, 4 complete
@@ -73,6 +86,7 @@ Prescribed(c) == CASE c = "noroute"        -> "404"
                    [] c = "redirect"       -> "301"
                    [] c = "nobackend"      -> "503"
                    [] c = "refused"        -> "503"
+                   [] c = "backoff"        -> "503"
                    [] c = "closedEarly"    -> "502"
                    [] c = "backendTimeout" -> "504"
                    [] c = "clientTimeout"  -> "408"
@@ -97,10 +111,17 @@ VARIABLES
   fconn,     \* frontend connection: open | draining (HTTP/2 after a default answer) | closed
   pool,      \* [Backend -> none | up | peerclosed | mute]  reusable connection (HTTP/1 keep-alive or the shared h2c connection)
   bclock, fclock, wait, elapsed,
-  actor      \* ghost: the request whose step this was (0 = connection / time)
+  actor,     \* ghost: the request whose step this was (0 = connection / time)
+  istate,    \* interim response of r: "no" (none / not yet emitted) | "sent" (emitted, sozu has not handled it) | "fwd"
+  bup,       \* the scripted backend B1 listens (FALSE while it refuses connections)
+  boff,      \* ticks of back-off left on B1 (retry.rs: a failed connect makes the backend unavailable for a while)
+  bfail,     \* ghost: a connect to B1 failed since the last one that succeeded
+  idle       \* mode newconn: ticks since the client's previous request finished (saturates at GapTicks)
 
+iv == <<istate>>
+rv == <<bup, boff, bfail, idle>>
 vars == <<sc, rq, phase, answer, cause, attempts, tried, link, bprog, cprog, fdone, stalled, dead, hit,
-          fconn, pool, bclock, fclock, wait, elapsed, actor>>
+          fconn, pool, bclock, fclock, wait, elapsed, actor, istate, bup, boff, bfail, idle>>
 
 Backends == {"B1", "B2", "B3", "B4"}
 BT == IF sc.timing = "ff" THEN 4 ELSE 2
@@ -111,7 +132,8 @@ Active(r) == phase[r] \in {"linked", "respStarted"}
 ClusterOf(r) == IF rq[r].route = "a" THEN (IF sc.nbk = 2 THEN {"B1", "B3"} ELSE {"B1"})
                 ELSE IF rq[r].route = "b" THEN {"B2"}
                 ELSE IF rq[r].route = "iplimit" THEN {"B4"} ELSE {}
-Refusing(b) == b = "B1" /\ \E q \in Reqs : rq[q].route = "a" /\ rq[q].fault = "refuse"
+Refusing(b) == b = "B1" /\ ~bup
+BackCloses(r) == rq[r].framing \in {"close", "clclose"} /\ sc.back = "h1"
 \* a backend that listens but never accepts / never reads: every connection to it is mute
 Mute(b) == b = "B1" /\ \E q \in Reqs : rq[q].route = "a" /\ rq[q].fault = "stall" /\ rq[q].at = "accept"
 \* the script of a request only runs on the scripted backend
@@ -125,15 +147,19 @@ AtHead(r) == sc.front = "h2" \/ \A q \in 1..(r - 1) : Finished(q)
 -----------------------------------------------------------------------------
 (* scenarios *)
 
-Primary(f, fr) == [route |-> "a", framing |-> fr, fault |-> f[1], at |-> f[2], pace |-> "fast"]
-Sibling(k) == [route |-> IF k = "bdrip" THEN "b" ELSE k, framing |-> "cl", fault |-> "none", at |-> "none",
-               pace |-> IF k = "bdrip" THEN "drip" ELSE "fast"]
+Base == [route |-> "a", framing |-> "cl", fault |-> "none", at |-> "none", pace |-> "fast", interim |-> "none", lsid |-> "na", gap |-> "none"]
+Primary(f, fr) == [Base EXCEPT !.framing = fr, !.fault = f[1], !.at = f[2]]
+Sibling(k) == [Base EXCEPT !.route = IF k = "bdrip" THEN "b" ELSE k, !.pace = IF k = "bdrip" THEN "drip" ELSE "fast"]
 
 OkScenario(s, q) ==
-  /\ s.mode \in (IF NReq = 1 THEN {"seq"} ELSE IF s.front = "h1" THEN {"seq", "pipe"} ELSE {"seq", "mux"})
+  /\ s.mode \in (IF NReq = 1 THEN {"seq"} ELSE IF NReq = 3 THEN {"newconn"} ELSE IF s.front = "h1" THEN {"seq", "pipe"} ELSE {"seq", "mux"})
   /\ \A r \in Reqs :
        /\ q[r].route = "wrongcert" => s.front = "h2"
-       /\ q[r].framing = "close" => s.back = "h1"
+       /\ q[r].framing \in {"close", "clclose"} => s.back = "h1"
+       /\ q[r].fault = "goaway" => s.back = "h2"
+       \* a GOAWAY naming one stream also speaks about the others on the connection: with a second stream on it
+       \* only the "everything will be processed" form is scripted
+       /\ (q[r].fault = "goaway" /\ s.mode \in {"pipe", "mux"} /\ \E p \in Reqs : p # r /\ q[p].route = "a") => q[r].lsid = "above"
        /\ q[r].fault = "rststream" => s.back = "h2"
        /\ q[r].fault = "connstall" => (s.back = "h2" /\ q[r].at \in {"midhdr", "midbody"} /\ \E p \in Reqs : p # r /\ q[p].route = "a")
        \* on an h2c connection a stall inside a frame silences the whole connection (that is "connstall")
@@ -142,18 +168,33 @@ OkScenario(s, q) ==
        /\ (q[r].fault # "none") <=> (q[r].at # "none")
        /\ q[r].at = "accept" => q[r].fault \in {"refuse", "stall"}
        /\ q[r].fault = "garbage" /\ q[r].at \in {"posthdr", "midbody"} => (q[r].framing = "chunked" /\ s.back = "h1")
-  /\ s.nbk = 2 => (NReq = 1 /\ q[1].fault \in {"refuse", "close", "stall"} /\ q[1].at \in {"accept", "prehdr"})
+  /\ s.nbk = 2 => (NReq = 1 /\ q[1].fault \in {"refuse", "close", "stall"} /\ q[1].at \in {"accept", "prehdr"} /\ q[1].pace = "fast")
 
 \* built constructively (the record-set comprehension above would be astronomically large)
 ScenarioSet ==
-  LET Shapes == [front : Fronts, back : Backs, mode : {"seq", "pipe", "mux"}, nbk : {1, 2}, timing : Timings]
-      Prim == {Primary(f, fr) : f \in Faults, fr \in Framings}
-               \cup {[route |-> "a", framing |-> fr, fault |-> "none", at |-> "none", pace |-> "drip"] : fr \in Framings}
+  LET Shapes == [front : Fronts, back : Backs, mode : {"seq", "pipe", "mux", "newconn"}, nbk : {1, 2}, timing : Timings]
+      Plain == {f \in Faults : f[1] # "goaway"}
+      \* graceful GOAWAY: before HEADERS (below / equal / above), between HEADERS and DATA, after the answer
+      Gw == {[Primary(f, fr) EXCEPT !.lsid = l, !.pace = p] : f \in {g \in Faults : g[1] = "goaway"}, fr \in Framings \cap {"cl", "chunked"},
+                                                           l \in {"below", "equal", "above"}, p \in {"fast", "split"}}
+      GwOk == {x \in Gw : x.lsid = "below" => x.at = "prehdr"}
+      \* the pacing dimension of close / reset: in a read of its own, or (fast) possibly with the bytes before it
+      Split == {[Primary(f, fr) EXCEPT !.pace = "split"] : f \in {g \in Plain : g[1] \in {"close", "reset"} /\ g[2] \in {"midhdr", "posthdr", "midbody"}}, fr \in Framings}
+      \* interim responses before the final one
+      Interim == {[Primary(<<"none", "none">>, fr) EXCEPT !.interim = i] : fr \in Framings, i \in {"sep", "same"}}
+      Prim == {Primary(f, fr) : f \in Plain, fr \in Framings}
+               \cup {[Base EXCEPT !.framing = fr, !.pace = "drip"] : fr \in Framings}
+               \cup GwOk \cup Split \cup Interim
                \cup (IF NReq = 1 THEN {Sibling(k) : k \in Siblings \ {"a", "b", "bdrip"}}
-                                        \cup {[route |-> "partial", framing |-> "cl", fault |-> "none", at |-> "none", pace |-> "fast"]}
+                                        \cup {[Base EXCEPT !.route = "partial"]}
                      ELSE {})
       Sibs == {Sibling(k) : k \in Siblings}
+      \* recovery sequences (three requests, each on a connection of its own): the backend refuses the first one,
+      \* recovers, and the later ones arrive after the back-off or right behind their predecessor
+      Rec == {<<Primary(<<"refuse", "accept">>, "cl"), [Base EXCEPT !.gap = g2], [Base EXCEPT !.gap = g3]>> :
+                 g2 \in {"none", "long"}, g3 \in {"none", "long"}}
       Q == IF NReq = 1 THEN {<<p>> : p \in Prim}
+           ELSE IF NReq = 3 THEN Rec
            ELSE {<<p, s>> : p \in Prim, s \in Sibs} \cup {<<s, p>> : p \in Prim, s \in Sibs}
   IN {<<s, q>> \in Shapes \X Q : OkScenario(s, q)}
 
@@ -178,6 +219,11 @@ Init ==
   /\ wait = [r \in Reqs |-> 0]
   /\ elapsed = [r \in Reqs |-> 0]
   /\ actor = 0
+  /\ istate = [r \in Reqs |-> "no"]
+  /\ bup = ~(\E q \in Reqs : rq[q].route = "a" /\ rq[q].fault = "refuse")
+  /\ boff = 0
+  /\ bfail = FALSE
+  /\ idle = 0
 
 -----------------------------------------------------------------------------
 (* helpers producing primed values *)
@@ -217,14 +263,24 @@ C_Send(r) ==
   /\ SeqGate(r)
   \* seq: the client waits until sozu has seen a close of the idle backend connection (harness mode seqgap)
   /\ (sc.mode = "seq" /\ r > 1) => \A b \in Backends : pool[b] # "peerclosed"
-  /\ IF fconn = "open"
-       THEN /\ phase' = [phase EXCEPT ![r] = IF rq[r].route = "partial" THEN "receiving" ELSE "received"]
+  /\ IF sc.mode = "newconn"
+       THEN \* a connection of its own (backend connections belong to the session: none is inherited), after the
+            \* refusing backend has recovered and, with gap = long, after more than any back-off
+            /\ r > 1 => (bup /\ (rq[r].gap = "long" => idle >= GapTicks))
+            /\ phase' = [phase EXCEPT ![r] = "received"]
             /\ cause' = cause
-       ELSE /\ phase' = [phase EXCEPT ![r] = "aborted"]     \* connection closed / GOAWAY: not received
-            /\ cause' = [cause EXCEPT ![r] = "connclosed"]
+            /\ fconn' = "open"
+            /\ pool' = [b \in Backends |-> "none"]
+       ELSE /\ IF fconn = "open"
+                 THEN /\ phase' = [phase EXCEPT ![r] = IF rq[r].route = "partial" THEN "receiving" ELSE "received"]
+                      /\ cause' = cause
+                 ELSE /\ phase' = [phase EXCEPT ![r] = "aborted"]     \* connection closed / GOAWAY: not received
+                      /\ cause' = [cause EXCEPT ![r] = "connclosed"]
+            /\ UNCHANGED <<fconn, pool>>
   /\ fclock' = 0
+  /\ idle' = 0
   /\ actor' = r
-  /\ UNCHANGED <<sc, rq, answer, attempts, tried, link, bprog, cprog, fdone, stalled, dead, hit, fconn, pool, bclock, wait, elapsed>>
+  /\ UNCHANGED <<sc, rq, answer, attempts, tried, link, bprog, cprog, fdone, stalled, dead, hit, bclock, wait, elapsed, istate, bup, boff, bfail>>
 
 \* pipelined / multiplexed: both requests leave the client back to back
 C_SendAll ==
@@ -234,7 +290,7 @@ C_SendAll ==
   /\ phase' = [r \in Reqs |-> IF rq[r].route = "partial" THEN "receiving" ELSE "received"]
   /\ fclock' = 0
   /\ actor' = 0
-  /\ UNCHANGED <<sc, rq, answer, cause, attempts, tried, link, bprog, cprog, fdone, stalled, dead, hit, fconn, pool, bclock, wait, elapsed>>
+  /\ UNCHANGED <<sc, rq, answer, cause, attempts, tried, link, bprog, cprog, fdone, stalled, dead, hit, fconn, pool, bclock, wait, elapsed, iv, rv>>
 
 -----------------------------------------------------------------------------
 (* sozu *)
@@ -246,17 +302,32 @@ Route(r) ==
             /\ actor' = r
             /\ UNCHANGED <<answer, cause, link, fconn, fclock>>
        ELSE Default(r, StatusOfRoute(rq[r].route), rq[r].route)
-  /\ UNCHANGED <<sc, rq, attempts, tried, bprog, cprog, fdone, stalled, dead, hit, pool, bclock, wait, elapsed>>
+  /\ UNCHANGED <<sc, rq, attempts, tried, bprog, cprog, fdone, stalled, dead, hit, pool, bclock, wait, elapsed, iv, rv>>
+
+\* backends.rs: a backend in back-off is not eligible (can_open)
+Avail(r) == {b \in ClusterOf(r) : b # "B1" \/ boff = 0}
 
 Connect(r) ==
   /\ phase[r] = "link" /\ fconn # "closed"
   /\ IF ClusterOf(r) = {}
        THEN /\ Default(r, "503", "nobackend")
-            /\ UNCHANGED <<attempts, tried, pool, bclock, dead, hit, stalled>>
+            /\ UNCHANGED <<attempts, tried, pool, bclock, dead, hit, stalled, boff, bfail>>
      ELSE IF attempts[r] >= MaxRetries
        THEN /\ Default(r, "503", "refused")
-            /\ UNCHANGED <<attempts, tried, pool, bclock, dead, hit, stalled>>
-     ELSE \E b \in (IF ClusterOf(r) \ tried[r] = {} THEN ClusterOf(r) ELSE ClusterOf(r) \ tried[r]) :
+            /\ UNCHANGED <<attempts, tried, pool, bclock, dead, hit, stalled, boff, bfail>>
+     ELSE IF Avail(r) = {}
+       THEN \* every backend of the cluster is in back-off: no usable backend
+            /\ Default(r, "503", IF "B1" \in tried[r] THEN "refused" ELSE "backoff")
+            \* (ghost) the window is there because a connect really failed and none succeeded since
+            /\ hit' = [hit EXCEPT ![r] = IF "B1" \notin tried[r] /\ bfail THEN "backoff" ELSE @]
+            /\ UNCHANGED <<attempts, tried, pool, bclock, dead, stalled, boff, bfail>>
+     ELSE \E b \in (IF Avail(r) \ tried[r] = {} THEN Avail(r) ELSE Avail(r) \ tried[r]) :
+            \* retry.rs succeed(): an established connection clears the back-off
+            \* (deviation BackoffNotReset - the seeded defect C02-12 - keeps the stale window and re-arms it)
+            /\ IF b = "B1" /\ ~Refusing(b)
+                 THEN /\ boff' = IF "BackoffNotReset" \in Deviations /\ bfail THEN BackoffTicks ELSE 0
+                      /\ bfail' = FALSE
+                 ELSE UNCHANGED <<boff, bfail>>
             /\ attempts' = [attempts EXCEPT ![r] = @ + 1]
             /\ link' = [link EXCEPT ![r] = b]
             /\ phase' = [phase EXCEPT ![r] = "linked"]
@@ -273,7 +344,7 @@ Connect(r) ==
             /\ stalled' = [stalled EXCEPT ![r] = pool[b] = "mute"]
             /\ actor' = r
             /\ UNCHANGED <<answer, cause, fconn, fclock, tried>>
-  /\ UNCHANGED <<sc, rq, bprog, cprog, fdone, wait, elapsed>>
+  /\ UNCHANGED <<sc, rq, bprog, cprog, fdone, wait, elapsed, istate, bup, idle>>
 
 \* connection refused: nothing of the request was written, the stream goes back to Link (Reconnect)
 ConnectFail(r) ==
@@ -282,43 +353,82 @@ ConnectFail(r) ==
   /\ tried' = [tried EXCEPT ![r] = @ \cup {link[r]}]
   /\ link' = [link EXCEPT ![r] = "none"]
   /\ hit' = [hit EXCEPT ![r] = "refused"]
+  \* retry.rs fail(): the backend is unavailable for a second (a failure inside the window changes nothing)
+  /\ boff' = IF link[r] = "B1" /\ boff = 0 THEN BackoffTicks ELSE boff
+  /\ bfail' = (bfail \/ link[r] = "B1")
   /\ actor' = r
-  /\ UNCHANGED <<sc, rq, answer, cause, attempts, bprog, cprog, fdone, stalled, dead, fconn, pool, bclock, fclock, wait, elapsed>>
+  /\ UNCHANGED <<sc, rq, answer, cause, attempts, bprog, cprog, fdone, stalled, dead, fconn, pool, bclock, fclock, wait, elapsed, istate, bup, idle>>
 
 \* what completing a relayed response does to the connections
 AfterComplete(r, ph) ==
   LET b == link[r]
       closeDelim == rq[r].framing = "close" /\ sc.back = "h1"
-      \* an unframed body reaches an HTTP/1 client: only closing the connection ends it
-      closeFront == closeDelim /\ sc.front = "h1" /\ ~("KeepAliveAfterCloseDelimited" \in Deviations)
+      \* an unframed body reaches an HTTP/1 client: only closing the connection ends it; a response that
+      \* carries Connection: close is relayed with it, and the HTTP/1 connection closes behind it as well
+      closeFront == BackCloses(r) /\ sc.front = "h1" /\ ~(closeDelim /\ "KeepAliveAfterCloseDelimited" \in Deviations)
       \* (fixed defect) kept alive, the client keeps waiting for the end of the unframed body ...
       lingering == closeDelim /\ sc.front = "h1" /\ "KeepAliveAfterCloseDelimited" \in Deviations
-  IN /\ pool' = [pool EXCEPT ![b] = IF sc.back = "h1" /\ closeDelim THEN "none" ELSE IF @ = "mute" THEN @ ELSE "up"]
+  IN /\ pool' = [pool EXCEPT ![b] = IF BackCloses(r) THEN "none" ELSE IF @ = "mute" THEN @ ELSE "up"]
      /\ fconn' = IF closeFront THEN "closed" ELSE fconn
      /\ phase' = IF closeFront THEN CutAll(ph) ELSE IF lingering THEN [ph EXCEPT ![r] = "respStarted"] ELSE ph
      /\ cause' = IF closeFront THEN CutCause(ph, [cause EXCEPT ![r] = "backend"]) ELSE [cause EXCEPT ![r] = "backend"]
 
-Relay(r) ==
-  /\ Active(r) /\ dead[r] = "no"
-  /\ bprog[r] >= 2 /\ cprog[r] < bprog[r]
-  /\ cprog' = [cprog EXCEPT ![r] = bprog[r]]
-  /\ answer' = [answer EXCEPT ![r] = "200"]
+\* an interim (1xx) response is forwarded; it is not the answer, the final response follows on the same exchange
+RelayInterim(r) ==
+  /\ Active(r) /\ dead[r] = "no" /\ istate[r] = "sent"
+  /\ istate' = [istate EXCEPT ![r] = "fwd"]
   /\ bclock' = [bclock EXCEPT ![r] = 0]
   /\ fclock' = 0
   /\ actor' = r
-  /\ IF bprog[r] = 4
-       THEN /\ AfterComplete(r, [phase EXCEPT ![r] = "done"])
-            /\ link' = link     \* kept as ghost: which backend served it
-       ELSE /\ phase' = [phase EXCEPT ![r] = "respStarted"]
-            /\ cause' = [cause EXCEPT ![r] = "backend"]
-            /\ UNCHANGED <<pool, fconn, link>>
-  /\ UNCHANGED <<sc, rq, attempts, tried, bprog, fdone, stalled, dead, hit, wait, elapsed>>
+  \* (open finding InterimSwallowsFinal) HTTP/1 backend: what arrived behind the interim response in the same
+  \* buffer is thrown away with it - the final response is never seen, the exchange waits for the backend timeout
+  /\ IF "InterimSwallowsFinal" \in Deviations /\ sc.back = "h1" /\ bprog[r] > 0
+       THEN /\ bprog' = [bprog EXCEPT ![r] = 0]
+            /\ stalled' = [stalled EXCEPT ![r] = TRUE]
+       ELSE UNCHANGED <<bprog, stalled>>
+  /\ UNCHANGED <<sc, rq, phase, answer, cause, attempts, tried, link, cprog, fdone, dead, hit, fconn, pool, wait, elapsed, rv>>
+
+Relay(r) ==
+  /\ Active(r) /\ dead[r] = "no" /\ istate[r] # "sent"
+  /\ bprog[r] >= 2 /\ cprog[r] < bprog[r]
+  /\ IF "InterimOnH2BackendAborts" \in Deviations /\ sc.back = "h2" /\ rq[r].interim # "none" /\ link[r] = "B1"
+       THEN \* (open finding) the final HEADERS of an h2c backend that follow a 1xx HEADERS are refused: stream aborted
+            /\ Abort(r)
+            /\ fclock' = 0
+            /\ UNCHANGED <<cprog, answer, bclock, pool, fconn>>
+       ELSE /\ cprog' = [cprog EXCEPT ![r] = bprog[r]]
+            /\ answer' = [answer EXCEPT ![r] = "200"]
+            /\ bclock' = [bclock EXCEPT ![r] = 0]
+            /\ fclock' = 0
+            /\ actor' = r
+            /\ IF bprog[r] = 4
+                 THEN /\ AfterComplete(r, [phase EXCEPT ![r] = "done"])
+                      /\ link' = link     \* kept as ghost: which backend served it
+                 ELSE /\ phase' = [phase EXCEPT ![r] = "respStarted"]
+                      /\ cause' = [cause EXCEPT ![r] = "backend"]
+                      /\ UNCHANGED <<pool, fconn, link>>
+  /\ UNCHANGED <<sc, rq, attempts, tried, bprog, fdone, stalled, dead, hit, wait, elapsed, iv, rv>>
 
 \* the backend side of r is gone: shared.rs end_stream_decision on what sozu has parsed (view)
 EndStream(r) ==
   /\ Active(r) /\ dead[r] # "no"
   /\ \E view \in (IF dead[r] = "reset" THEN cprog[r]..bprog[r] ELSE {bprog[r]}) :
-       IF view < 2 \/ (dead[r] = "garbage" /\ cprog[r] < 2 /\ "DefaultAfterHead" \notin Deviations)
+       IF dead[r] = "gwrefused"
+         THEN \* GOAWAY: the backend will not process this stream. The request was written: it cannot be replayed.
+              \* (open finding GoawayRefusedDropped: the stream is terminated without any answer; so is - seeded
+              \* defect C02-22, deviation GoawayKillsNamed - the stream the GOAWAY names as being processed)
+              IF "GoawayRefusedDropped" \in Deviations \/ hit[r] # "early"
+                THEN /\ Abort(r)
+                     /\ UNCHANGED <<cprog, answer, pool, fconn, fclock>>
+                ELSE /\ Default(r, "502", "closedEarly")
+                     /\ UNCHANGED <<cprog, pool>>
+       ELSE IF "LengthBodyCutByCloseCompletes" \in Deviations /\ rq[r].framing = "clclose" /\ sc.back = "h1" /\ dead[r] = "close" /\ view \in {2, 3}
+         THEN \* (fixed defect) Connection: close made the backend's close the end of a body that has a length
+              /\ cprog' = [cprog EXCEPT ![r] = view]
+              /\ answer' = [answer EXCEPT ![r] = "200"]
+              /\ AfterComplete(r, [phase EXCEPT ![r] = "done"])
+              /\ link' = link /\ fclock' = 0 /\ actor' = r
+       ELSE IF view < 2 \/ (dead[r] = "garbage" /\ cprog[r] < 2 /\ "DefaultAfterHead" \notin Deviations)
          THEN \* no response: the request was written, retrying is unsafe
               /\ Default(r, "502", "closedEarly")
               /\ UNCHANGED <<cprog, pool>>
@@ -342,18 +452,18 @@ EndStream(r) ==
               /\ Abort(r)
               /\ UNCHANGED <<cprog, answer, pool, fconn, fclock>>
   /\ dead' = [dead EXCEPT ![r] = "no"]
-  /\ UNCHANGED <<sc, rq, attempts, tried, bprog, fdone, stalled, hit, bclock, wait, elapsed>>
+  /\ UNCHANGED <<sc, rq, attempts, tried, bprog, fdone, stalled, hit, bclock, wait, elapsed, iv, rv>>
 
 \* back_timeout on the backend connection of r (Mux::timeout, backend token branch)
 BackTimeout(r) ==
-  /\ Active(r) /\ dead[r] = "no" /\ bclock[r] >= BT
+  /\ Active(r) /\ dead[r] = "no" /\ bclock[r] >= BT /\ istate[r] # "sent"
   /\ ~(bprog[r] >= 2 /\ cprog[r] < bprog[r])
   /\ IF cprog[r] = 0 /\ ~("NoAnswerOnTimeout" \in Deviations)
        THEN Default(r, "504", "backendTimeout")       \* nothing forwarded yet
        ELSE /\ Abort(r)                                \* response under way: forced termination
             /\ fclock' = 0
             /\ UNCHANGED <<answer, fconn>>
-  /\ UNCHANGED <<sc, rq, attempts, tried, bprog, cprog, fdone, stalled, dead, hit, pool, bclock, wait, elapsed>>
+  /\ UNCHANGED <<sc, rq, attempts, tried, bprog, cprog, fdone, stalled, dead, hit, pool, bclock, wait, elapsed, iv, rv>>
 
 \* frontend timeout (Mux::timeout, frontend token branch): 408 for an HTTP/1 request that never completed
 \* (request_timeout); with timing "ff" the 504 / forced-termination arms for the streams waiting on their
@@ -366,7 +476,7 @@ FrontTimeout ==
      \/ \* front_timeout with requests waiting for / receiving from their backends: every stream is handled in the
         \* same pass - 504 where nothing was forwarded, forced termination where a response is under way
         /\ fclock >= FT /\ \E r \in Reqs : Active(r)
-        /\ \A r \in Reqs : Active(r) => (dead[r] = "no" /\ ~(bprog[r] >= 2 /\ cprog[r] < bprog[r]))
+        /\ \A r \in Reqs : Active(r) => (dead[r] = "no" /\ istate[r] # "sent" /\ ~(bprog[r] >= 2 /\ cprog[r] < bprog[r]))
         /\ LET T == {r \in Reqs : Active(r)}
                A == {r \in T : cprog[r] = 0}       \* answered 504
                \* (on this path nothing is written for a terminated stream, on HTTP/2 either: the client learns
@@ -400,19 +510,23 @@ FrontTimeout ==
         /\ fclock' = 0
         /\ actor' = 0
         /\ UNCHANGED <<answer, link>>
-  /\ UNCHANGED <<sc, rq, attempts, tried, bprog, cprog, fdone, stalled, dead, hit, pool, bclock, wait, elapsed>>
+  /\ UNCHANGED <<sc, rq, attempts, tried, bprog, cprog, fdone, stalled, dead, hit, pool, bclock, wait, elapsed, iv, rv>>
 
 \* sozu processes the HUP of an idle pooled connection the backend closed
 NoticeClose(b) ==
   /\ pool[b] = "peerclosed"
   /\ pool' = [pool EXCEPT ![b] = "none"]
   /\ actor' = 0
-  /\ UNCHANGED <<sc, rq, phase, answer, cause, attempts, tried, link, bprog, cprog, fdone, stalled, dead, hit, fconn, bclock, fclock, wait, elapsed>>
+  /\ UNCHANGED <<sc, rq, phase, answer, cause, attempts, tried, link, bprog, cprog, fdone, stalled, dead, hit, fconn, bclock, fclock, wait, elapsed, iv, rv>>
 
 -----------------------------------------------------------------------------
 (* backend *)
 
-FaultDue(r) == EffFault(r) \notin {"none", "refuse"} /\ ~fdone[r] /\ EffAt(r) \notin {"between", "accept"} /\ bprog[r] = Level(EffAt(r))
+FaultDue(r) == /\ EffFault(r) \notin {"none", "refuse"} /\ ~fdone[r] /\ EffAt(r) \notin {"between", "accept"} /\ bprog[r] = Level(EffAt(r))
+               \* pace split: the fault comes in a read of its own, after sozu has handled what was sent before it
+               /\ rq[r].pace = "split" => (istate[r] # "sent" /\ (bprog[r] < 2 \/ cprog[r] = bprog[r]))
+\* the interim response of r is still to be emitted (only the scripted backend sends one)
+InterimDue(r) == link[r] = "B1" /\ rq[r].interim # "none" /\ istate[r] = "no" /\ bprog[r] = 0
 CanSend(r) == Active(r) /\ ~Refusing(link[r]) /\ ~Mute(link[r]) /\ dead[r] = "no" /\ ~stalled[r] /\ bprog[r] < 4 /\ ~FaultDue(r)
 NextLevel(r) == CASE bprog[r] = 0 -> IF EffAt(r) = "midhdr" /\ ~fdone[r] THEN 1 ELSE 2
                   [] bprog[r] = 1 -> 2
@@ -423,47 +537,70 @@ Paced(r) == rq[r].pace = "drip" /\ bprog[r] >= 2 => wait[r] >= 1
 
 B_Send(r) ==
   /\ CanSend(r) /\ Paced(r)
-  /\ bprog' = [bprog EXCEPT ![r] = NextLevel(r)]
+  /\ IF InterimDue(r)
+       THEN \* the interim response, alone or (same) in one segment with the head of the final response
+            /\ istate' = [istate EXCEPT ![r] = "sent"]
+            /\ bprog' = IF rq[r].interim = "same" THEN [bprog EXCEPT ![r] = NextLevel(r)] ELSE bprog
+       ELSE /\ bprog' = [bprog EXCEPT ![r] = NextLevel(r)]
+            /\ istate' = istate
   /\ wait' = [wait EXCEPT ![r] = 0]
   /\ actor' = r
-  /\ UNCHANGED <<sc, rq, phase, answer, cause, attempts, tried, link, cprog, fdone, stalled, dead, hit, fconn, pool, bclock, fclock, elapsed>>
+  /\ UNCHANGED <<sc, rq, phase, answer, cause, attempts, tried, link, cprog, fdone, stalled, dead, hit, fconn, pool, bclock, fclock, elapsed, rv>>
 
 B_Fault(r) ==
   /\ Active(r) /\ ~Refusing(link[r]) /\ ~Mute(link[r]) /\ dead[r] = "no" /\ ~stalled[r] /\ FaultDue(r)
   /\ fdone' = [fdone EXCEPT ![r] = TRUE]
   /\ LET k == EffFault(r)
          V == IF k \in {"close", "reset", "garbage", "connstall"} THEN Victims(r) ELSE {r}
+         \* graceful GOAWAY: the stream is refused when last_stream_id is below it - and (deviation
+         \* GoawayKillsNamed, the seeded defect C02-22) when it is the very stream the GOAWAY names
+         refused == k = "goaway" /\ (rq[r].lsid = "below" \/ (rq[r].lsid = "equal" /\ "GoawayKillsNamed" \in Deviations))
      IN /\ dead' = [q \in Reqs |-> IF q \in V /\ k \in {"close", "reset", "garbage"} THEN k
-                                    ELSE IF q = r /\ k = "rststream" THEN "rst" ELSE dead[q]]
-        /\ stalled' = [q \in Reqs |-> stalled[q] \/ (q \in V /\ k \in {"stall", "connstall"})]
+                                    ELSE IF q = r /\ k = "rststream" THEN "rst"
+                                    ELSE IF q = r /\ refused THEN "gwrefused" ELSE dead[q]]
+        /\ stalled' = [q \in Reqs |-> stalled[q] \/ (q \in V /\ k \in {"stall", "connstall"}) \/ (q = r /\ k = "goaway" /\ rq[r].lsid = "below")]
         \* (ghost) what the environment did to a request nothing was forwarded for yet; a kill supersedes a stall
-        /\ hit' = [q \in Reqs |-> IF q \in V /\ cprog[q] = 0 /\ answer[q] = "none"
+        /\ hit' = [q \in Reqs |-> IF k = "goaway" THEN (IF q = r /\ rq[r].lsid = "below" THEN "early" ELSE hit[q])
+                                    ELSE IF q \in V /\ cprog[q] = 0 /\ answer[q] = "none"
                                     THEN (IF k \in {"stall", "connstall"} THEN (IF hit[q] = "none" THEN "stall" ELSE hit[q]) ELSE "early")
                                     ELSE hit[q]]
-        \* a shared h2c connection silenced inside a frame stays in the pool: later requests linked to it stall too
-        /\ pool' = [pool EXCEPT ![link[r]] = IF k = "connstall" THEN "mute" ELSE @]
+        \* a shared h2c connection silenced inside a frame stays in the pool: later requests linked to it stall too;
+        \* a connection whose peer said GOAWAY takes no new stream
+        /\ pool' = [pool EXCEPT ![link[r]] = IF k = "connstall" THEN "mute" ELSE IF k = "goaway" THEN "none" ELSE @]
   /\ actor' = r
-  /\ UNCHANGED <<sc, rq, phase, answer, cause, attempts, tried, link, bprog, cprog, fconn, bclock, fclock, wait, elapsed>>
+  /\ UNCHANGED <<sc, rq, phase, answer, cause, attempts, tried, link, bprog, cprog, fconn, bclock, fclock, wait, elapsed, iv, rv>>
 
 \* the backend closes / resets the connection after a complete response: it hits the idle pooled connection
 \* and, on a shared h2c connection, whatever else is in flight on it
 B_Between(r) ==
   /\ phase[r] = "done" /\ answer[r] = "200" /\ link[r] = "B1" /\ rq[r].at = "between" /\ ~fdone[r]
   /\ fdone' = [fdone EXCEPT ![r] = TRUE]
-  /\ pool' = [pool EXCEPT !["B1"] = IF @ = "up" THEN "peerclosed" ELSE @]
+  \* (a GOAWAY on the idle connection retires it at once: sozu never offers it a new stream)
+  /\ pool' = [pool EXCEPT !["B1"] = IF @ = "up" THEN (IF rq[r].fault = "goaway" THEN "none" ELSE "peerclosed") ELSE @]
   /\ LET V == IF sc.back = "h2" THEN {q \in Reqs : Active(q) /\ link[q] = "B1"} ELSE {}
-     IN /\ dead' = [q \in Reqs |-> IF q \in V THEN rq[r].fault ELSE dead[q]]
-        /\ hit' = [q \in Reqs |-> IF q \in V /\ cprog[q] = 0 /\ answer[q] = "none" THEN "early" ELSE hit[q]]
+         \* a later stream already on the connection when the GOAWAY arrives is above its last_stream_id
+         gw == rq[r].fault = "goaway"
+     IN /\ dead' = [q \in Reqs |-> IF q \in V THEN (IF gw THEN (IF rq[r].lsid = "above" THEN dead[q] ELSE "gwrefused") ELSE rq[r].fault) ELSE dead[q]]
+        /\ stalled' = [q \in Reqs |-> stalled[q] \/ (q \in V /\ gw /\ rq[r].lsid # "above")]
+        /\ hit' = [q \in Reqs |-> IF q \in V /\ cprog[q] = 0 /\ answer[q] = "none" /\ ~(gw /\ rq[r].lsid = "above") THEN "early" ELSE hit[q]]
   /\ actor' = r
-  /\ UNCHANGED <<sc, rq, phase, answer, cause, attempts, tried, link, bprog, cprog, stalled, fconn, bclock, fclock, wait, elapsed>>
+  /\ UNCHANGED <<sc, rq, phase, answer, cause, attempts, tried, link, bprog, cprog, fconn, bclock, fclock, wait, elapsed, iv, rv>>
+
+\* the refusing backend starts listening once the requests scripted "refuse" are over (mode newconn)
+B_Recover ==
+  /\ sc.mode = "newconn" /\ ~bup
+  /\ \A q \in Reqs : rq[q].fault = "refuse" => Finished(q)
+  /\ bup' = TRUE
+  /\ actor' = 0
+  /\ UNCHANGED <<sc, rq, phase, answer, cause, attempts, tried, link, bprog, cprog, fdone, stalled, dead, hit, fconn, pool, bclock, fclock, wait, elapsed, istate, boff, bfail, idle>>
 
 -----------------------------------------------------------------------------
 (* time *)
 
-SozuStep == \/ \E r \in Reqs : Route(r) \/ Connect(r) \/ ConnectFail(r) \/ Relay(r) \/ EndStream(r) \/ BackTimeout(r)
+SozuStep == \/ \E r \in Reqs : Route(r) \/ Connect(r) \/ ConnectFail(r) \/ RelayInterim(r) \/ Relay(r) \/ EndStream(r) \/ BackTimeout(r)
             \/ FrontTimeout
 EnvUrgent == \/ \E r \in Reqs : C_Send(r) \/ B_Send(r) \/ B_Fault(r) \/ B_Between(r)
-             \/ C_SendAll
+             \/ C_SendAll \/ B_Recover
 AllFinished == \A r \in Reqs : Finished(r)
 
 \* everything but waiting is urgent: time passes only when nobody can move (a dripping backend waits one tick)
@@ -475,7 +612,9 @@ Tick ==
   /\ wait' = [r \in Reqs |-> IF wait[r] < 1 THEN wait[r] + 1 ELSE wait[r]]
   /\ elapsed' = [r \in Reqs |-> IF phase[r] \notin {"unsent", "done", "aborted"} /\ elapsed[r] <= Budget THEN elapsed[r] + 1 ELSE elapsed[r]]
   /\ actor' = 0
-  /\ UNCHANGED <<sc, rq, phase, answer, cause, attempts, tried, link, bprog, cprog, fdone, stalled, dead, hit, fconn, pool>>
+  /\ boff' = IF boff > 0 THEN boff - 1 ELSE 0
+  /\ idle' = IF (\A r \in Reqs : phase[r] = "unsent" \/ Finished(r)) /\ idle < GapTicks THEN idle + 1 ELSE idle
+  /\ UNCHANGED <<sc, rq, phase, answer, cause, attempts, tried, link, bprog, cprog, fdone, stalled, dead, hit, fconn, pool, istate, bup, bfail>>
 
 Next == SozuStep \/ EnvUrgent \/ (\E b \in Backends : NoticeClose(b)) \/ Tick
 
@@ -489,7 +628,9 @@ TypeOK ==
                      /\ answer[r] \in {"none", "200", "301", "401", "404", "408", "421", "429", "502", "503", "504"}
                      /\ bprog[r] \in 0..4 /\ cprog[r] \in 0..4 /\ cprog[r] <= bprog[r]
                      /\ attempts[r] \in 0..MaxRetries
+                     /\ istate[r] \in {"no", "sent", "fwd"}
   /\ fconn \in {"open", "draining", "closed"}
+  /\ boff \in 0..BackoffTicks /\ idle \in 0..GapTicks
 
 \* (a) at most one final answer per request: once set it never changes
 P_C02_OneAnswer == [][\A r \in Reqs : answer[r] # "none" => answer'[r] = answer[r]]_vars
@@ -501,6 +642,7 @@ P_C02_StatusMatchesCause ==
     /\ cause[r] \in {"noroute", "deny", "wrongcert", "iplimit", "redirect"} => rq[r].route = cause[r]
     /\ cause[r] = "nobackend" => rq[r].route = "nobackend"
     /\ cause[r] = "refused" => hit[r] = "refused"
+    /\ cause[r] = "backoff" => (hit[r] = "backoff" /\ rq[r].route = "a")
     /\ cause[r] = "closedEarly" => hit[r] = "early"
     /\ cause[r] = "backendTimeout" => hit[r] = "stall"
     /\ cause[r] = "clientTimeout" => rq[r].route = "partial"
@@ -541,6 +683,15 @@ P_C02_SiblingServed ==
   \A r \in Reqs : (Finished(r) /\ rq[r].route = "b") =>
      \/ (answer[r] = "200" /\ phase[r] = "done")
      \/ (cause[r] = "connclosed" /\ (sc.front = "h1" \/ fconn # "open"))
+
+-----------------------------------------------------------------------------
+\* (f) when the environment does nothing wrong - every backend answers completely; a graceful GOAWAY that lets the
+\*     stream finish, an interim response before the final one, a slow body are not faults - every request gets the
+\*     backend's response (or the explicit close behind a response that says Connection: close)
+Graceful(q) == rq[q].fault = "none" \/ (rq[q].fault = "goaway" /\ rq[q].lsid \in {"equal", "above"} /\ rq[q].at # "between")
+CleanScenario == \A q \in Reqs : rq[q].route \in {"a", "b"} /\ Graceful(q)
+P_C02_CleanServed ==
+  CleanScenario => \A r \in Reqs : Finished(r) => ((phase[r] = "done" /\ answer[r] = "200") \/ cause[r] = "connclosed")
 
 -----------------------------------------------------------------------------
 (* generator: one line per terminal state *)
